@@ -140,6 +140,22 @@ def raw_dtype_root(v, depth=0):
     return None
 
 
+def _float_making(v, depth=0):
+    """The value is float64 by construction (np.nextafter, a float copy, a non-integral constant), whatever the dtype of its operands."""
+    if depth > 6:
+        return False
+    if isinstance(v, App):
+        if v.fn in ("nextafter", "nextafter_down", "nextafter_up", "sqrt", "exp", "log", "mean"):
+            return True
+        if v.fn == "fresh" and v.kwd("dtype") == Const("float"):
+            return True
+        if v.fn in ("ite", "where") and len(v.args) == 3:
+            return _float_making(v.args[1], depth + 1) or _float_making(v.args[2], depth + 1)
+    if isinstance(v, Const) and isinstance(v.value, float) and v.value == v.value and v.value not in (float("inf"), float("-inf")) and v.value != int(v.value):
+        return True
+    return False
+
+
 class _Subst(ast.NodeTransformer):
     def __init__(self, mapping):
         self.mapping = mapping
@@ -876,6 +892,26 @@ class Evaluator:
             for base in b.bases:
                 if isinstance(base, str):
                     return self.lib.foreign_base_attr(self, base, name, obj)
+        if obj is not None and isinstance(obj, Obj):
+            # a symbolic instance built by a rule (not through __init__): private bookkeeping the constructor initialises unconditionally with
+            # an argument-free value (`self._cache = {}`, `self._last = None`, a literal) has that initial value on a fresh object
+            for b in ci.mro():
+                init = b.methods.get("__init__") or b.methods.get("__post_init__")
+                if init is None:
+                    continue
+                for st in init.node.body:
+                    if isinstance(st, (ast.Assign, ast.AnnAssign)) and getattr(st, "value", None) is not None:
+                        tgts = st.targets if isinstance(st, ast.Assign) else [st.target]
+                        for t in tgts:
+                            if isinstance(t, ast.Attribute) and isinstance(t.value, ast.Name) and t.value.id == "self" and t.attr == name:
+                                v = st.value
+                                simple = isinstance(v, ast.Constant) or (isinstance(v, (ast.Dict, ast.List, ast.Set, ast.Tuple)) and not (getattr(v, "keys", None) or getattr(v, "elts", None))) \
+                                    or (isinstance(v, ast.Call) and isinstance(v.func, ast.Name) and v.func.id in ("dict", "list", "set") and not v.args and not v.keywords)
+                                if simple:
+                                    val = self.eval(v, Frame(b.module, None, None, b))
+                                    obj.attrs[name] = val
+                                    return val
+                break
         raise AnalysisError("attribute %s not found on class %s" % (name, ci.qualname))
 
     def dynamic_class_attrs(self, ci):
@@ -1616,6 +1652,11 @@ class Evaluator:
                        loops=len(getattr(self, "loop_stack", [])))
             if root is not None:
                 self.event("inplace", how="subscript-store", root=root, target=ast.unparse(t), node=t, value=base)
+            rr = raw_dtype_root(base)
+            if rr is not None and isinstance(v, V) and _float_making(v):
+                # an element store casts to the TARGET's dtype: a one-ulp neighbour / a fraction written into an array that still has the
+                # caller's (possibly integer or float32) dtype is truncated or rounded back
+                self.event("raw_store", root=rr, value=v, node=t, text=ast.unparse(t))
             new = mk_app("store", [base, idx, v if isinstance(v, V) else Sym(key_of(v))])
             # rebind the variable that holds the array (value semantics of an in-place write)
             self.rebind(t.value, new, fr)
